@@ -10,7 +10,7 @@ CHECKS = {
    text="Generated one-sided operation histories (all four id/path provider flavours, arbitrary interleaving of single production-loop iterations) are executed against the real engine and compared with a pure reference tree at every quiet point; the origin side is snapshotted around every engine step and the engine's provider call log must stay silent after quiet. No counter-example in the explored domain is the claim; absence is not established.",
    note="Trusted: mock providers as stand-ins for accounts, harness shims (virtual clock, deterministic ids/hash order), reference tree model. Domain narrowed by the hazards listed in evidence.assumptions (open known findings)."),
 }
-E_NOTE = "Trusted: mock providers as stand-ins for accounts, harness shims (virtual clock, deterministic ids/hash order), reference tree model. Domain narrowed by the hazards listed in evidence.assumptions (each backed by an open known finding with a replayed witness)."
+E_NOTE = "Schedules: single production-loop iterations in arbitrary order incl. starvation bursts, with virtual time passing between them; flavours: four id/path pairs, provider-side event filtering, roots by id, (C01/C03/C04) case-insensitive id/id with variant spellings. Trusted: mock providers as stand-ins for accounts, harness shims (virtual clock, deterministic ids/hash order), reference tree model. Domain narrowed by the hazards listed in evidence.assumptions (each backed by an open known finding with a replayed witness)."
 CHECKS.update({
  "C01": dict(engine="E-engine-harness", category="exploration", design_ref="2/C01",
    technique="property-based testing: Hypothesis-generated two-sided histories (hazard-free background ops + pure conflict-gadget catalogue) executed step-by-step against the real engine; oracle = convergence predicate modulo '.conflicted' + step-bounded quiescence; trace-level ddmin",
@@ -42,34 +42,34 @@ CHECKS.update({
 CHECKS.update({
  "C18": dict(engine="runnable", category="exploration", design_ref="2/C18",
    technique="property-based testing against a reference backoff law (scripted work functions, recorded sleep requests); generated start/stop/wait schedules with harness-owned placement of stop(); generated notification lists with failing handlers compared with the delivery log",
-   text="Backoff arithmetic is decided single-threaded by replacing interruptable_sleep with a recorder and comparing every requested wait with min(max, min*mult^(k-1)); the stop/start protocol runs real threads but the harness blocks do() so that it owns where stop() lands; notification delivery is compared with the raised list, in order, once each.",
+   text="Backoff arithmetic is decided single-threaded by replacing interruptable_sleep with a recorder and comparing every requested wait with min(max, min*mult^(k-1)); the stop/start protocol runs real threads but the harness blocks do() so that it owns where stop() lands; notification delivery is compared with the raised list, in order, once each; part 'restart' calls start() again while the previous worker is still inside do() after a non-waiting stop (never two workers, cleanup at most once).",
    note="Trusted: the reference law as transcribed from the statement. Real-thread parts sample OS scheduling apart from the harness-owned stop placement; a wall-clock wait that runs out is reported as inconclusive, never as a violation."),
 })
 CHECKS.update({
  "C10": dict(engine="E-engine-harness", category="fault_enumeration", design_ref="2/C10",
    technique="fault injection driven by property-based generation: Hypothesis-generated histories with generated fault arms (kind x before/after-effect x placement) in front of the provider API; bounded enumeration of every single-fault placement of generated fault-free runs; oracles: escaped-exception invariant, per-step notification attribution, convergence + version-survival after faults stop",
-   text="Faults are raised instead of / after the k-th engine-originated provider call; the production loop body must swallow them, raise the matching notification in the same step, and converge without loss once faults stop. The 'single' part enumerates, for each generated fault-free history, every engine call index x 7 fault kinds/phases once (all placements of a single fault); 'stuck' covers permanently failing files (locked / invalid name).",
-   note=E_NOTE + " Two fault-placement families are fenced off as open findings (KF-20, KF-21) and replayed every run."),
+   text="Faults are raised instead of / after the k-th engine-originated provider call; the production loop body must swallow them, raise the matching notification in the same step, and converge without loss once faults stop. The 'single' part enumerates, for each generated fault-free history, every engine call index x 7 fault kinds/phases once (all placements of a single fault; before-effect kinds only where the window renames something); 'stuck' covers permanently failing files (locked / invalid name).",
+   note=E_NOTE + " Fault-placement families fenced off as open findings (KF-20, KF-21, KF-27/27c, KF-11d) are replayed every run."),
 })
 CHECKS.update({
  "C06": dict(engine="E-engine-harness", category="exploration", design_ref="2/C06",
    technique="property-based testing: Hypothesis-generated histories with stop/start cycles at arbitrary step boundaries, offline user changes and four storage-damage modes; oracle = reference merged tree at every quiet point plus a call-log invariant (no transfer after a restart at a quiet point)",
-   text="The engine is stopped and a new one is built over the same storage and accounts (provider cursors reset to what a new process sees); modes remove or corrupt the stored cursor or the walk marker. Both roots must equal the expected tree afterwards and a restart at a quiet point must not transfer anything.",
+   text="The engine is stopped and a new one is built over the same storage and accounts (provider cursors reset to what a new process sees); modes remove or corrupt the stored cursor or the walk marker. In a third of the cycles the stop request reaches an event loop in the middle of a batch. Both roots must equal the expected tree afterwards and a restart at a quiet point must not transfer anything.",
    note=E_NOTE),
  "C07": dict(engine="E-engine-harness", category="fault_enumeration", design_ref="2/C07",
    technique="crash-point injection driven by property-based generation: a crash is raised immediately before the k-th storage write or after the k-th engine provider mutation, the engine object is discarded and rebuilt over the surviving storage/provider contents; 'enum' re-runs each generated history once per crash point (all points in the thorough tier); oracle = convergence + version survival + no conflict artefacts",
-   text="Every storage write and every engine-issued provider mutation of a generated run is a crash point; quick samples 12 evenly spread points per history, thorough enumerates all of them. After the crash the history continues and must still converge without loss and (one-sided) without '.conflicted' names.",
-   note=E_NOTE + " Atomic row writes are assumed (DictStorage). KF-29/KF-27b (object touched again between crash and re-sync) are fenced off and replayed."),
+   text="Every storage write and every engine-issued provider mutation of a generated run, in every window of the history, is a crash point; quick takes all provider-write points (up to 16) plus 8 evenly spread storage-write points per history, thorough enumerates all of them; half of the enumerated histories are 'batch windows' (all user ops of a window before its engine steps) without the re-touch fence. After the crash the history continues and must still converge without loss and (one-sided) without '.conflicted' names.",
+   note=E_NOTE + " Atomic row writes are assumed (DictStorage). KF-29/KF-27b (object touched again between crash and re-sync), KF-30 and KF-42 (multi-row commits are not atomic) are fenced off and replayed."),
 })
 CHECKS.update({
  "C05": dict(engine="E-engine-harness", category="exploration", design_ref="2/C05",
    technique="property-based testing against an outcome table: generated (shape, contents, resolver behaviour, flavour, two step schedules) cases with an instrumented resolver installed through the documented override; metamorphic relation between the two schedules; exhaustive enumeration of the resolver x shape x flavour x content-class product",
-   text="The resolver logs what it is handed and answers according to the drawn behaviour; the final trees are judged by the statement's table (winner at the path on both sides, loser kept iff keep, merged data, remote-wins fallback for None/raise/garbage, silent merge for equal contents) and must be identical for two independently drawn schedules.",
+   text="The resolver logs what it is handed and answers according to the drawn behaviour; the final trees are judged by the statement's table (winner at the path on both sides, loser kept iff keep, merged data, remote-wins fallback for None/raise/garbage, silent merge for equal contents) and must be identical for two independently drawn schedules. Part 'rounds' repeats the conflict 2-4 times on the same file (fresh bytes each round, resolver drawn per round) and judges every round with the same table.",
    note=E_NOTE + " Resolver answer (merged, keep=True) is an open finding (KF-06), replayed every run and not generated."),
  "C14": dict(engine="E-engine-harness", category="exploration", design_ref="2/C14",
    technique="metamorphic property-based testing: every generated history is executed twice (clean vs. script-driven mangled event delivery: duplicates, late copies, singleton batches, held-back and reordered events on id-style sides, injected id-less/never-existed events, walk replays); oracle = equal final trees (== expected), transfer multiset inclusion for immediate duplicates, no mutation when redundant information is fed to a quiet engine",
-   text="Delivery details are owned by a wrapper around provider.events() with its own cursor; the outcome of the mangled run must equal the clean run and the reference tree. Where timing is identical (immediate duplicates) the mangled run may not perform any additional successful create/upload/delete; walks and bogus events at a quiet point must cause no provider mutation.",
-   note=E_NOTE + " Walk replays overtaking pending renames on a path-style side are an open finding (KF-32)."),
+   text="Delivery details are owned by a wrapper around provider.events() with its own cursor; the outcome of the mangled run must equal the clean run and the reference tree. Where timing is identical (immediate duplicates) the mangled run may not perform any additional successful create/upload/delete; walks, bogus events and (id-style sides) a tree listing taken earlier and delivered late, fed to a quiet engine, must cause no provider mutation.",
+   note=E_NOTE + " Walk replays overtaking pending renames on a path-style side (KF-32), folder events overtaken by their sub-folder's (KF-34) and a stale listing delivered after a delete (KF-48) are open findings, fenced off and replayed."),
 })
 CHECKS.update({
  "C08": dict(engine="E-engine-harness", category="exploration", design_ref="2/C08",
@@ -80,32 +80,32 @@ CHECKS.update({
 CHECKS.update({
  "C11": dict(engine="state-level", category="exploration", design_ref="2/C11",
    technique="stateful property-based testing of SyncState: generated event/split/merge/ignore/assignment/commit sequences with an index-integrity invariant evaluated after every operation; the same invariant after every step of generated engine histories",
-   text="The two lookup structures and the pending set are recomputed from the entries after every operation and compared slot by slot (every id slot, every (path,id) slot, no empty bucket, pending == change flag with an id, nothing forgotten). Sequences deliberately reuse ids and path slots and include splits and merges.",
-   note="Trusted: the integrity predicate (transcribed from the statement). Operation preconditions mirror the code's own asserts and call sites. KF-16 (unbounded recursion) and KF-35 (abandoned entry stays pending) are fenced off and replayed."),
+   text="The two lookup structures and the pending set are recomputed from the entries after every operation and compared slot by slot (every id slot, every (path,id) slot, no empty bucket, pending == change flag with an id, nothing forgotten). Sequences deliberately reuse ids and path slots, include splits and merges, and let the provider fail (temporary error) on a lookup the state makes while it applies a rename event: the index must be intact after the aborted update too.",
+   note="Trusted: the integrity predicate (transcribed from the statement). Operation preconditions mirror the code's own asserts and call sites. KF-16 (unbounded recursion) is fenced off and replayed; KF-35/KF-41 were repaired and their witnesses are regression traces."),
 })
 CHECKS.update({
  "C12": dict(engine="E-engine-harness", category="exploration", design_ref="2/C12",
    technique="property-based testing with objects outside the roots (prefix siblings, account-root files, boundary-crossing moves, declining translate): snapshot invariant over everything outside the roots around every engine step, call-log invariant on the resolved target path of every engine mutation, reference tree for the inside",
-   text="Users create and move objects across the root boundary; after every single engine step everything outside both roots must be byte-identical and every engine-issued mutation must address (as resolved before the call) a path inside the root; the inside must equal the expected tree with move-out as deletion and move-in as creation; declined paths must stay exactly as each side's users left them.",
-   note=E_NOTE + " KF-23 (upload onto a moved-out file) and KF-36 (children of a moved-in folder) are open findings, fenced off and replayed."),
+   text="Users create and move objects across the root boundary; after every single engine step everything outside both roots must be byte-identical and every engine-issued mutation must address (as resolved before the call) a path inside the root; the inside must equal the expected tree with move-out as deletion and move-in as creation; part 'xmove' renames/deletes an object inside the root on one side while the other side moves it out (judged: nothing outside a root is ever touched, every engine mutation addresses a path inside its root); declined paths must stay exactly as each side's users left them.",
+   note=E_NOTE + " KF-23 (upload onto a moved-out file), KF-36 (children of a moved-in folder), KF-11b/c (tombstones of moved-out objects) and KF-45 (children of a moved-out folder deleted outside the root) are open findings, fenced off and replayed."),
 })
 CHECKS.update({
  "C17": dict(engine="E-engine-harness", category="exploration", design_ref="2/C17",
    technique="differential property-based testing under a virtual clock: the engine's entry selection is compared, inside the wrapped call with the clock frozen, with a reference choice computed from the statement's law; an end-to-end call-log invariant relates every engine mutation to the last event notification of that object; a bounded-step no-starvation scenario",
-   text="Ageing, priorities and clock advances are generated; every single sync step's pick must be None iff nothing is eligible and otherwise minimal in (priority, latest change) among the eligible entries; every provider mutation must come at least the ageing interval after the object's last event notification unless its priority is negative; with one file failing for ever, k healthy files must be propagated within 20k+50 sync steps.",
+   text="Ageing, priorities and clock advances are generated; every single sync step's pick must be None iff nothing is eligible and otherwise minimal in (priority, latest change) among the eligible entries; every provider mutation must come at least the ageing interval after the object's last event notification unless its priority is negative; after an event-intake step every entry whose path changed has the rank prioritize() gives to its new path (prioritize by leaf name or by top-level folder); with one file failing for ever, k healthy files must be propagated within 20k+50 sync steps.",
    note=E_NOTE + " KF-37/38 (early propagation via set_aged / via the other side's flag) and KF-39 (livelock with prioritize and rmtree) are open findings, fenced off and replayed."),
 })
 CHECKS.update({
  "C20": dict(engine="E-engine-harness", category="exploration", design_ref="2/C20",
    technique="model-based property testing of SmartCloudSync: generated remote/local user ops, application requests/un-requests (by path and by id) and folder listings interleaved with single engine iterations; safety invariant after every step (what may be present locally, which remote objects the engine may download, no remote deletion) and reference trees + listing model at every quiet point",
    text="A small model tracks what users made of the remote tree, which files were created locally, requested or match the auto-sync predicate; after every engine step and application call the local tree may only contain such files, the engine's call log may only download such files and may never delete remotely; at quiet both trees and every folder listing (name -> is_synced) must equal the model.",
-   note=E_NOTE + " Renames and local deletes are outside the generated domain."),
+   note=E_NOTE + " Remote side id-style or path-style; renames and local deletes are outside the generated domain."),
 })
 CHECKS.update({
  "C16": dict(engine="provider-model", category="exploration", design_ref="2/C16",
    technique="model-based property testing of the provider API: Hypothesis-generated call sequences (incl. stale ids, missing parents, case variants, five file-size classes) against a reference file tree for four MockProvider flavours and the FileSystemProvider on a scratch directory; per-call result/exception-class oracle, cross-agreement of all read calls, id-stability and hash laws, event-stream completeness; separate identity/single-use scenarios",
    text="Every call's result or exception class is compared with the reference tree; after every call all read calls must agree with the tree and with each other, ids must be stable (id-style) or equal the normalised path (path-style), info.hash must equal hash_data of the same bytes with equal hash iff equal bytes, and the event stream must report every successful mutation.",
-   note="Trusted: the reference tree and the documented error classes. Filesystem events are asynchronous: 5 s polling, one whole-case retry, and the object's final existence is accepted in the event. KF-22 (mock path-style + case-insensitive) is fenced off (lower-case names only) and replayed."),
+   note="Trusted: the reference tree and the documented error classes. Filesystem events are asynchronous: 5 s polling, up to two whole-case re-runs with longer polls and paced calls, and the object's final existence is accepted in the event. Sequences include disconnect/reconnect cycles and renames that replace an empty folder. KF-22 (mock path-style + case-insensitive) is fenced off (lower-case names only) and replayed."),
 })
 CHECKS.update({
  "C15": dict(engine="E-engine-harness", category="exploration", design_ref="2/C15",
